@@ -152,15 +152,19 @@ def h_frozenlist_operators(x0: int, x1: int, op: int) -> bool:
 
 
 INT = NumericType(NumericType.Kind.Int)
+from guppylang_internals.tys.builtin import array_type as _array_type
+_LIN = BoundTypeVar("Q", 0, False, False)      # stands for a qubit-like field type
 _SDEF = CheckedStructDef(DefId.fresh(), "P", None, [], [StructField("x", INT), StructField("y", INT)])
+_SDEF2 = CheckedStructDef(DefId.fresh(), "R", None, [], [StructField("x", _array_type(INT, 2)), StructField("y", _LIN)])
 
 
-def h_struct_setattr(frozen: bool, v: int, which: int) -> bool:
+def h_struct_setattr(frozen: bool, v: int, which: int, linear_fields: bool) -> bool:
     """
     pre: 0 <= which < 3
     post: _
     """
-    obj = O.GuppyStructObject(StructType([], _SDEF), [1, 2], frozen)
+    # fields of copyable type (int) or of non-copyable type (a classical array, a qubit-like value)
+    obj = O.GuppyStructObject(StructType([], _SDEF2 if linear_fields else _SDEF), [1, 2], frozen)
     key = ["x", "y", "nope"][which]
     try:
         setattr(obj, key, v)
